@@ -51,7 +51,7 @@ def main(tier):
     cfg = os.path.join(wd, "MC_Layout.cfg")
     txt = open(os.path.join(SPEC, "MC_Layout.cfg")).read()
     if tier == "thorough":
-        txt = txt.replace("Pairs = {5, 9, 29}", "Pairs = {1, 3, 4, 5, 6, 9, 16, 18, 24, 28, 29, 31, 34, 35, 40}")
+        txt = txt.replace("Pairs = {5, 9, 29}", "Pairs = {1, 3, 4, 5, 6, 9, 16, 18, 24, 28, 29, 31, 34, 35, 39}")
     open(cfg, "w").write(txt)
     out = os.path.join(wd, "variants.ndjson")
     if os.path.exists(out):
